@@ -22,20 +22,20 @@ Proof.
 Qed.
 
 (* the two open finding classes and the envelope flag (a copy of an option with a pending change) *)
-Definition flagged (m : mon) : bool := m_f1 m || m_f3 m || m_fs m.
+Definition flagged (m : mon) : bool := m_f1 m || m_f3 m || m_f4 m || m_fs m.
 
 Lemma mon_step_flag_mono opts defaults m o : flagged m = true -> flagged (mon_step opts defaults m o) = true.
 Proof.
   unfold flagged. intros H.
   destruct o; cbn [mon_step]; try assumption.
   - destruct (dfind_ci name opts) as [[cn k]|]; [|assumption]. destruct (spec_validate k v); exact H.
-  - destruct (dfind_ci name opts) as [[cn k]|]; [|assumption]. cbn [m_f1 m_f3 m_fs].
-    destruct (m_f1 m), (m_f3 m), (m_fs m); cbn in *; try discriminate; try reflexivity; now rewrite ?orb_true_r.
-  - destruct (s_pend (m_st m)); [assumption|]. cbn [m_f1 m_f3 m_fs].
-    destruct (m_f1 m), (m_f3 m), (m_fs m); cbn in *; try discriminate; try reflexivity; now rewrite ?orb_true_r.
+  - destruct (dfind_ci name opts) as [[cn k]|]; [|assumption]. cbn [m_f1 m_f3 m_fs m_f4].
+    destruct (m_f1 m), (m_f3 m), (m_f4 m), (m_fs m); cbn in *; try discriminate; try reflexivity; now rewrite ?orb_true_r.
+  - destruct (s_pend (m_st m)); [assumption|]. cbn [m_f1 m_f3 m_fs m_f4].
+    destruct (m_f1 m), (m_f3 m), (m_f4 m), (m_fs m); cbn in *; try discriminate; try reflexivity; now rewrite ?orb_true_r.
   - destruct (dfind_ci dst opts) as [[cd kd]|]; [|assumption]. destruct (dfind_ci src opts) as [[cs ks]|]; [|assumption].
-    cbn [m_f1 m_f3 m_fs].
-    destruct (m_f1 m), (m_f3 m), (m_fs m); cbn in *; try discriminate; try reflexivity; now rewrite ?orb_true_r.
+    cbn [m_f1 m_f3 m_fs m_f4].
+    destruct (m_f1 m), (m_f3 m), (m_f4 m), (m_fs m); cbn in *; try discriminate; try reflexivity; now rewrite ?orb_true_r.
 Qed.
 
 Lemma mon_run_flag_mono opts defaults ops : forall m, flagged m = true -> flagged (mon_run opts defaults m ops) = true.
@@ -44,8 +44,11 @@ Proof.
   apply IH. now apply mon_step_flag_mono.
 Qed.
 
-Lemma not_flagged m : flagged m = false -> m_f1 m = false /\ m_f3 m = false /\ m_fs m = false.
-Proof. unfold flagged. intros H. apply orb_false_iff in H as [H Hs]. apply orb_false_iff in H as [H1 H3]. auto. Qed.
+Lemma not_flagged m : flagged m = false -> m_f1 m = false /\ m_f3 m = false /\ m_fs m = false /\ m_f4 m = false.
+Proof.
+  unfold flagged. intros H. apply orb_false_iff in H as [H Hs]. apply orb_false_iff in H as [H H4].
+  apply orb_false_iff in H as [H1 H3]. auto.
+Qed.
 
 Section SimRun.
   Variable opts : list (bytes * kind).
@@ -62,7 +65,7 @@ Section SimRun.
     m_step names st o = Some (st', ob) ->
     step_ok opts defaults st m o st' ob.
   Proof.
-    intros R Hok Hc Hfl H. destruct (not_flagged _ Hfl) as [F1 [F3 Fs]].
+    intros R Hok Hc Hfl H. destruct (not_flagged _ Hfl) as [F1 [F3 [Fs F4]]].
     destruct o; try discriminate Hc.
     - eapply sim_assign; eassumption.
     - eapply sim_listop; eassumption.
@@ -145,7 +148,7 @@ Section Input.
 End Input.
 
 Definition mon0 (i : cfg_input) : mon :=
-  {| m_st := eff_ost i; m_det := []; m_f1 := false; m_f3 := false; m_fs := false |}.
+  {| m_st := eff_ost i; m_det := []; m_f1 := false; m_f3 := false; m_fs := false; m_f4 := false |}.
 
 Lemma c10_known_flagged i : flagged (mon_of i) = c10_known i || copy_of_pending i.
 Proof. reflexivity. Qed.
@@ -161,7 +164,7 @@ Proof.
   intros Hs Hk R H. unfold c10_scope in Hs. apply andb_true_iff in Hs as [Hs Hcp]. apply negb_true_iff in Hcp.
   apply andb_true_iff in Hs as [Hin Hc10].
   unfold in_scope in Hin. apply andb_true_iff in Hin as [Hin Hops]. apply andb_true_iff in Hin as [Hin _].
-  apply andb_true_iff in Hin as [Htab _].
+  apply andb_true_iff in Hin as [Hin _]. apply andb_true_iff in Hin as [Htab _].
   unfold Spec.C10.oracle, cfg_oracle, worlds. cbn [existsb]. rewrite orb_false_r. apply orb_true_iff. right.
   unfold cfg_oracle_from.
   apply (sim_run (options (i_table i)) (i_defaults i) (in_opts_nodup i Htab) (in_opts_not_hs i Htab) (in_opts_keys_ok i Htab)
